@@ -10,7 +10,9 @@ RULE = ("Polyploid pipeline cases: ploidy 2-6 (mostly 3-4), one contig with 6-25
         "indels, a share of tri-allelic SNVs), k true haplotypes with collapsed (identical) stretches, reads that "
         "(in a quarter of the cases partly paired-end) are exact copies of a haplotype at uneven depth, optionally with substitution "
         "errors at SNV sites (wrong allele or a base matching no allele); options -B 0..5, "
-        "--use-prephasing on a partially phased input (ploidy <= 5), --tag PS, threads 1. Oracle: every phased genotype lists exactly the "
+        "--use-prephasing on a partially phased input (ploidy <= 5), --tag PS/HP, --only-snvs, --min-overlap, threads 1, and in an eighth of "
+        "the cases --distrust-genotypes (the genotype statement is then suspended for processed calls: a changed genotype must be "
+        "a complete genotype of the same ploidy over the record's alleles). Oracle: every phased genotype lists exactly the "
         "alleles of the input genotype with multiplicities and only heterozygous calls are phased; everything else in the file "
         "is unchanged (htslib diff); per sample the PS labels form contiguous runs in position order and each id is the "
         "1-based position of a read-covered heterozygous variant lying after the previous run's last phased variant and not "
@@ -86,6 +88,9 @@ def gen(draw):
     case["tag"] = draw(st.sampled_from(["PS", "PS", "HP"]))
     case["only_snvs"] = draw(st.integers(0, 5)) == 0
     case["min_overlap"] = draw(st.sampled_from([2, 2, 2, 3]))
+    # --distrust-genotypes: the genotype statement of the property is suspended for the processed calls (they may be
+    # re-genotyped), everything else (pass-through, only heterozygous calls phased, block structure) is judged as before
+    case["distrust"] = draw(st.integers(0, 7)) == 0
     case["opts"] = {"B": draw(st.sampled_from([0, 1, 2, 3, 4, 4, 5])), # the ILP behind --use-prephasing takes minutes per case at ploidy 6: drawn for ploidy <= 5 only
                     "prephase": ploidy <= 5 and draw(st.integers(0, 5 if ploidy == 5 else 3)) == 0}
     return case
@@ -180,7 +185,7 @@ class PolyphasePart:
             with open(out, "w") as fo:
                 run_polyphase([bam], vcf, ploidy, reference=ref, output=fo, block_cut_sensitivity=o["B"], threads=1,
                               use_prephasing=o["prephase"], write_command_line_header=False, tag=case.get("tag", "PS"),
-                              only_snvs=bool(case.get("only_snvs")), min_overlap=case.get("min_overlap", 2), **kw)
+                              only_snvs=bool(case.get("only_snvs")), min_overlap=case.get("min_overlap", 2), distrust_genotypes=bool(case.get("distrust")), **kw)
         P.check_readable(out, "polyphase")
         ha, a = vm.read_vcf(vcf)
         hb, b = vm.read_vcf(out)
@@ -219,8 +224,15 @@ class PolyphasePart:
         def untouched(sample, rec):
             return (sample == "t" and case.get("second_sample") == "unselected" and not phased) or (
                 rec["chrom"] == "chr2" and case.get("second_contig") == "unselected" and not phased)
-        for kind, msg in vm.diff_records(a, b, ignore_format=("PS", "HP"), compare_gt="multiset", gt_exact_for=untouched, fmt_exact_for=untouched):
+        def regenotyped(sample, rec):
+            return bool(case.get("distrust")) and not untouched(sample, rec)
+        for kind, msg in vm.diff_records(a, b, ignore_format=("PS", "HP"), compare_gt="multiset", gt_exact_for=untouched, fmt_exact_for=untouched,
+                                         gt_free_for=regenotyped):
             ctx.violation("polyphase:" + kind, msg)
+        if case.get("distrust"):
+            ctx.label("distrust-genotypes")
+            if any(vm.allele_multiset(x["samples"]["s"]["GT"]) != vm.allele_multiset(y["samples"]["s"]["GT"]) for x, y in zip(a, b)):
+                ctx.label("distrust-genotypes: a genotype was changed")
         # sample t and contig chr2 have no reads: nothing there may be phased
         for y in b:
             for smp, c in y["samples"].items():
